@@ -132,10 +132,25 @@ func (w *KafkaWriter) WriteEvent(e interface{}) {
 	}
 }
 
+func (w *KafkaWriter) writeBatch(messagesToSend []kafka.Message) {
+	metric := w.newMetric(KAFKAWRITER)
+	metric.AddValue("messages_sent", len(messagesToSend))
+	metric.AddValue("messages_failed", 0)
+
+	w.writeFunction(messagesToSend, &metric)
+
+	monitoring.Send(metric)
+}
+
 func (w *KafkaWriter) writingLoop() {
 	for {
 		select {
 		case <-w.batchingLoopDoneCh:
+			// The batching loop is done, so nothing new will be pushed: we flush
+			// whatever is still buffered before reporting that we are done.
+			for w.messageBuffer.Length() > 0 {
+				w.writeBatch(w.messageBuffer.PopMultiple(100))
+			}
 			w.runningWorkers.Done()
 			return
 		default:
@@ -144,13 +159,7 @@ func (w *KafkaWriter) writingLoop() {
 				continue
 			}
 
-			metric := w.newMetric(KAFKAWRITER)
-			metric.AddValue("messages_sent", len(messagesToSend))
-			metric.AddValue("messages_failed", 0)
-
-			w.writeFunction(messagesToSend, &metric)
-
-			monitoring.Send(metric)
+			w.writeBatch(messagesToSend)
 		}
 	}
 }
